@@ -444,6 +444,23 @@ def run(ctx):
         return src is not None and any(call_is(y, GETR) for y in subterms(src))
     on_ok = on is not None and any(from_getr(x) for x in subterms(on) if x[0] in ("comp", "loopvar", "await", "mut")) \
         and not any(call_is(x, f"{AC}._send_command") or (x[0] == "call" and x[1][0] == "ext" and x[1][1].endswith("._send_command")) for x in subterms(on))
+    if on_ok:
+        # "receives only such frames -> offline": with no valid response the flag must be false.  A disjunct that does not look at this
+        # refresh's responses (a tolerance counter, the previous flag, a timestamp) keeps the device online on corrupted frames alone
+        def disjuncts(x):
+            x = strip(x)
+            if x[0] == "bool" and x[1] == "or":
+                for y in x[2]:
+                    yield from disjuncts(y)
+            else:
+                yield x
+        loose = [d_ for d_ in disjuncts(on) if not any(from_getr(y) for y in subterms(d_) if y[0] in ("comp", "loopvar", "await", "mut"))]
+        if loose:
+            on_ok = False
+            ctx.ob("C13.c", r.qual, False, "", func=r.qual, file=r.module.rel, construct=f"self._online = {show(on)[:90]}",
+                   fail=f"`online` can be true without any valid response of this refresh (`{show(loose[0])[:80]}`): a refresh answered only by "
+                        "corrupted frames does not report the device offline")
+            on_ok = True          # (reported above; the generic message below would repeat it)
     if not on_ok:
         # the same decision written as control flow: every return stores a constant, and which one is decided by the truth / length of
         # the validated responses (`if not responses: self._online = False; return` ... `self._online = True`)
